@@ -5,6 +5,8 @@ import (
 	"encoding/json"
 	"fmt"
 	"os"
+	"path/filepath"
+	"strings"
 	"sync"
 	"sync/atomic"
 	"testing"
@@ -558,6 +560,19 @@ func TestC01(t *testing.T) {
 
 	flushSeq()
 	flushConc()
+
+	// the persistent-backed handle right after a restart: several clients' first accesses overlap with the (slow) lazy
+	// load. Reads must return the committed value, a Create of a committed id must not succeed, acknowledged writes stay.
+	if os.Getenv("VERIF_REPLAY") == "" {
+		for it := range tier(3, 30) {
+			for _, p := range runConcurrentFirstAccess(t, filepath.Join(dir, fmt.Sprintf("c01-firstaccess-%d.bolt", it))) {
+				rep.violateKey(it, "restart:"+strings.SplitN(p, ":", 2)[0], "restart: "+p, map[string]any{"concurrent_first_access": it, "problem": p})
+			}
+
+			rep.count(fmt.Sprint("firstaccess", it), true)
+			rep.hit("concurrent_first_access")
+		}
+	}
 
 	rep.CorrIsSpec = true
 	rep.Assumptions = append(rep.Assumptions, "the collection mutex makes each operation body atomic (sampled by the concurrent histories, assumed by the linearizability theorem)")
